@@ -132,6 +132,83 @@ class Sym:
         self.nonneg = set()    # atoms known >= 0 by construction (zext results)
         self._memo = {}
         self._stores = None
+        self._load_atoms = {}
+        self._maywrite = {}
+
+    def _calls_may_write(self, p):
+        """does the function call a library function that (transitively) stores to a field with the same name?"""
+        if p in self._maywrite:
+            return self._maywrite[p]
+        field = p.replace("->", ".").split(".")[-1].split("[")[0]
+        r = False
+        for i in self.fn.instrs():
+            if i.op == "call" and i.callee:
+                g = self.prog.resolve(i.callee, self.fn.module)
+                if g is not None and _writes_field_named(self.prog, g, field, set()):
+                    r = True
+                    break
+        self._maywrite[p] = r
+        return r
+
+    def _call_may_write_before(self, d, p):
+        if not self._calls_may_write(p):
+            return False
+        field = p.replace("->", ".").split(".")[-1].split("[")[0]
+        cfg = cfg_of(self.fn)
+        for i in self.fn.instrs():
+            if i.op == "call" and i.callee:
+                g = self.prog.resolve(i.callee, self.fn.module)
+                if g is not None and _writes_field_named(self.prog, g, field, set()):
+                    if d.block in cfg.reachable_from(i.block) and not (i.block is d.block and i.idx > d.idx):
+                        return True
+        return False
+
+    def _same_value(self, first, second, p):
+        """no write to location p can happen between instruction `first` and the later instruction `second`
+        (first dominates second), on paths that do not pass through `first` again"""
+        fn = self.fn
+        field = p.replace("->", ".").split(".")[-1].split("[")[0]
+        fb = first.block
+        # forward region from just after `first`, not re-entering first's block
+        region = set()
+        work = list(fb.succs)
+        while work:
+            b = work.pop()
+            if b is fb or b in region:
+                continue
+            region.add(b)
+            work.extend(b.succs)
+        # blocks of the region (plus first's block tail) from which `second` is reachable inside the region
+        sb = second.block
+        can = set()
+        if sb is fb:
+            cand = [(fb, first.idx + 1, second.idx)]
+        else:
+            if sb not in region:
+                return False
+            # backward closure inside the region
+            can = {sb}
+            work = [sb]
+            while work:
+                b = work.pop()
+                for q in b.preds:
+                    if q in region and q not in can:
+                        can.add(q)
+                        work.append(q)
+            cand = [(fb, first.idx + 1, len(fb.instrs))]
+            for b in can:
+                cand.append((b, 0, second.idx if b is sb else len(b.instrs)))
+        for b, lo, hi in cand:
+            for i in b.instrs[lo:hi]:
+                if i.op == "store" and self.P.path(i.ops[1]) == p:
+                    return False
+                if i.op in ("atomicrmw", "cmpxchg") and self.P.path(i.ops[0]) == p:
+                    return False
+                if i.op == "call" and i.callee:
+                    g = self.prog.resolve(i.callee, fn.module)
+                    if g is not None and _writes_field_named(self.prog, g, field, set()):
+                        return False
+        return True
 
     def _stored_paths(self):
         if self._stores is None:
@@ -190,18 +267,26 @@ class Sym:
             p = self.P.path(d.ops[0])
             stores = self._stored_paths().get(p, [])
             cfg = cfg_of(fn)
-            if not stores:
+            if not stores and not self._calls_may_write(p):
                 return self._atom(p, d.type)
-            # version by the set of stores that may reach this load
+            # a single dominating store whose value is known and which is the only one that can reach the load
             reach = [s for s in stores if d.block in cfg.reachable_from(s.block) and not (s.block is d.block and s.idx > d.idx)]
-            if not reach:
-                return self._atom(p, d.type)
+            if not reach and not self._call_may_write_before(d, p):
+                return self._atom(p, d.type)      # the value the location had on entry
             dom = [s for s in reach if cfg.dominates(s, d)]
-            if len(reach) == 1 and dom:
+            if len(reach) == 1 and dom and self._same_value(dom[0], d, p):
                 sv = self.expr(reach[0].ops[0])
                 if sv is not None:
                     return sv
-            return self._atom("%s@%s" % (p, self._nm(d)), d.type)
+            # same atom as an earlier load of the location when no write can occur in between
+            for (l1, name) in self._load_atoms.get(p, []):
+                if (cfg.dominates(l1, d) and self._same_value(l1, d, p)) or \
+                        (cfg.dominates(d, l1) and self._same_value(d, l1, p)):
+                    self.atom_type[name] = d.type
+                    return atom(name)
+            name = "%s@%s" % (p, d.res) if (stores or self._calls_may_write(p)) else p
+            self._load_atoms.setdefault(p, []).append((d, name))
+            return self._atom(name, d.type)
         if op in ("bitcast", "trunc") and op == "bitcast":
             return self.expr(d.ops[0])
         return self._atom(self._nm(d), d.type)
@@ -240,7 +325,9 @@ class Sym:
             return [d.scale(-1)]
         if pred == "eq":
             return [d, d.scale(-1)]
-        return []   # ne: not convex
+        if pred == "ne":
+            self.last_ne = d      # not convex: offered to the caller as a disjunction (d <= -1 or d >= 1)
+        return []
 
     def _nonneg(self, e):
         if e.is_const():
@@ -264,6 +351,33 @@ class Sym:
             out.append(atom(a).scale(-1) + const(lo))     # lo - a <= 0
             out.append(atom(a) + const(-hi))              # a - hi <= 0
         return out
+
+
+_wf_cache = {}
+
+
+def _writes_field_named(prog, g, field, seen):
+    key = (id(g), field)
+    if key in _wf_cache:
+        return _wf_cache[key]
+    if id(g) in seen:
+        return False
+    seen.add(id(g))
+    P = Paths(g, prog)
+    r = False
+    for i in g.instrs():
+        if i.op == "store":
+            q = P.path(i.ops[1]).replace("->", ".").split(".")[-1].split("[")[0]
+            if q == field:
+                r = True
+                break
+        if i.op == "call" and i.callee:
+            h = prog.resolve(i.callee, g.module)
+            if h is not None and _writes_field_named(prog, h, field, seen):
+                r = True
+                break
+    _wf_cache[key] = r
+    return r
 
 
 # ---------------------------------------------------------------------------
@@ -309,9 +423,13 @@ def facts_at(sym, block, removed=frozenset()):
                     continue
                 # every path to block takes this edge
                 for cmp_, tr in _flatten_cond(fn, t.ops[0], truth):
+                    sym.last_ne = None
                     fs = sym.cmp_facts(cmp_, tr)
                     if fs:
                         facts += fs
+                        prov.append("%s: %s is %s" % (cmp_.locstr(), _cmp_str(sym, cmp_), tr))
+                    elif getattr(sym, "last_ne", None) is not None:
+                        sym.ne_facts = getattr(sym, "ne_facts", []) + [(block.name, sym.last_ne)]
                         prov.append("%s: %s is %s" % (cmp_.locstr(), _cmp_str(sym, cmp_), tr))
         elif t.op == "switch":
             v = sym.expr(t.ops[0])
@@ -335,6 +453,16 @@ def facts_at(sym, block, removed=frozenset()):
 def _cmp_str(sym, cmp_):
     a, b = sym.expr(cmp_.ops[0]), sym.expr(cmp_.ops[1])
     return "(%r %s %r)" % (a, cmp_.x["pred"], b)
+
+
+def entails(sym, block, facts, goal):
+    """facts (plus the disequalities recorded for `block`, split into their two convex halves) entail goal <= 0"""
+    nes = [d for (b, d) in getattr(sym, "ne_facts", []) if b == block.name][:3]
+    cases = [[]]
+    for d in nes:
+        cases = [c + [d + const(1)] for c in cases] + [c + [d.scale(-1) + const(1)] for c in cases]
+    neg = goal.scale(-1) + const(1)
+    return all(fm_infeasible(facts + c + [neg]) for c in cases)
 
 
 def _decide(facts, goal_facts):
@@ -421,7 +549,7 @@ def prove_at(prog, fn, instr, goals, what, sym=None):
             for x in allf:
                 atoms |= x.atoms()
             rf = sym.range_facts(atoms)
-            if fm_infeasible(allf + rf + [g.scale(-1) + const(1)]):
+            if entails(sym, block, allf + rf, g):
                 used.append({"case": cname or "(no split)", "goal": desc, "facts": prov})
                 continue
             # try to refute with a boundary witness
